@@ -36,7 +36,7 @@ def writer_scripts(rng, tier):
         [W(5), F, H, W(5), F, G, W(5), F, T, C],
         [H, W(5), F, W(5), F, T, C],
     ]
-    nrand = 4 if tier == 'quick' else 60
+    nrand = 4 if tier == 'quick' else 25
     for _ in range(nrand):
         s = []
         for _ in range(rng.randrange(1, 7)):
@@ -80,7 +80,7 @@ def sim_enqueues(script):
 def gen_writer(rng, tier):
     fam, hdr = writer_scripts(rng, tier)
     cases = []
-    wcs = [1, 2, 4] if tier == 'quick' else [0, 1, 2, 3, 4, 8]
+    wcs = [1, 2, 4] if tier == 'quick' else [0, 1, 2, 3, 8]
     for s in fam:
         top = sim_enqueues(s)
         ks = list(range(0, top)) + [-1]
@@ -119,7 +119,7 @@ def gen_reader(rng, tier):
             [S(nb - 1, 3), R(10), S(1, 0), R(total), C],
             [R(blocks[0]), R(1), S(1, 0), R(5), S(2, 0), R(5), S(0, 1), R(total), R(1), C],
         ]
-        nrand = 2 if tier == 'quick' else 12
+        nrand = 2 if tier == 'quick' else 6
         for _ in range(nrand):
             s = []
             for _ in range(rng.randrange(2, 8)):
@@ -139,8 +139,7 @@ def gen_reader(rng, tier):
                     for xm in range(nb + 2):
                         for xoff in (0, 5, 18, 25, 9999):
                             xs.append((xm, xoff))
-                    if tier == 'quick':
-                        xs = [(-1, 0)] + rng.sample(xs[1:], 3)
+                    xs = [(-1, 0)] + rng.sample(xs[1:], 3 if tier == 'quick' else 10)
                     for (xm, xoff) in xs:
                         for trans in ((0, 1) if xm >= 0 else (0,)):
                             cases.append(dict(kind='r', rd=rd, cache=cache, blocks=blocks, xm=xm, xoff=xoff,
@@ -259,7 +258,7 @@ def oracle_reader(c, o):
 def oracle(c, o):
     fs = oracle0(c, o)
     if c['kind'] == 'r':
-        cfg = ':rd%s:%s' % ('1' if c['rd'] == 1 else 'N', 'cache' if c['cache'] else 'nocache')
+        cfg = ':rd%s:%s' % ('1' if c['rd'] == 1 else 'N', ['nocache', 'lru', 'fifo', 'random'][c['cache']])
         fs = [(s + cfg, w) for s, w in fs]
     return fs
 
